@@ -134,3 +134,12 @@ package reactive
 //@   keeps Rerunner
 //@   call node.release assert r.computation != nil && arg0 == addr(r.computation.node)
 //@   ensures r.stop && r.computation == nil
+
+// ---- C17 / C08: a computation that fails is released (its node's resources are cleaned up) - also when the failure is the
+// retry sentinel; a computation that succeeds is handed to the caller unreleased.
+//@ func run
+//@   ghost nrel int
+//@   entry ghost nrel = 0
+//@   call node.release ghost nrel = nrel + 1
+//@   ensures err != nil ==> nrel == 1 && result == nil
+//@   ensures err == nil ==> nrel == 0 && result != nil
